@@ -117,3 +117,111 @@ def decode(x):
     if isinstance(x, lib.RunLength2dArray):
         return np.asarray(x.to_array())
     return x
+
+
+# ----------------------------------------------------------------------------- label arrays (strings, bytes, objects, records)
+
+LABEL_POOLS = {
+    "U3": ["aa", "b", "cc", "", "b "],
+    "S2": [b"x", b"yy", b"", b"z"],
+    "O": ["a", None, (1, 2), 3.5, "b", (1, 2.5)],
+    "rec": [(1, 2.0), (3, 4.5), (1, 2.5), (0, 0.0)],
+}
+REC_DTYPE = [("a", "i4"), ("b", "f8")]
+
+
+def label_array(kind, idx):
+    """1-D array of a non-numeric element type whose k-th element is pool[idx[k]]"""
+    pool = LABEL_POOLS[kind]
+    if kind == "O":
+        a = np.empty(len(idx), dtype=object)
+        for k, i in enumerate(idx):
+            a[k] = pool[i % len(pool)]
+        return a
+    if kind == "rec":
+        return np.array([pool[i % len(pool)] for i in idx], dtype=REC_DTYPE)
+    return np.array([pool[i % len(pool)] for i in idx], dtype=kind)
+
+
+def labels_same(a, b):
+    a, b = np.asarray(a), np.asarray(b)
+    if a.shape != b.shape or a.dtype != b.dtype:
+        return False
+    if a.dtype == object:
+        return all(type(x) is type(y) and x == y for x, y in zip(a.tolist(), b.tolist()))
+    return bool(np.array_equal(a, b))
+
+
+def run_labels(case, what):
+    """Run-length arrays of labels (strings, bytes, python objects, records): the operations that do not compute with the values -- encoding and
+    decoding, canonical form, slices with any step, every kind of index, concatenation -- against the dense array.  what: "encode" (C14) or "index" (C15)."""
+    from .core import attempt, held, violated, short
+    RLA = CTX.lib.RunLengthArray
+    kind, idx = case["lkind"], case["idx"]
+    v = label_array(kind, idx)
+    L = len(v)
+    tags = ["k:labels", "labels:" + kind, "labels:" + what]
+    e = attempt(RLA.from_array, v.copy())
+    desc = "RunLengthArray.from_array(%s array %s)" % (v.dtype, short(v.tolist(), 120))
+    if not e.ok:
+        return violated("%s raised %r" % (desc, e), tags)
+    r = e.value
+
+    def same(got, want, how):
+        g = attempt(lambda: np.asarray(got.to_array()) if isinstance(got, RLA) else np.asarray(got))
+        if not g.ok or not labels_same(g.value, want):
+            return violated("%s: %s gives %s, the dense array gives %s" % (desc, how, repr(g) if not g.ok else short(g.value.tolist(), 120), short(np.asarray(want).tolist(), 120)), tags)
+        return None
+    for how, f, want in (("to_array()", lambda: r.to_array(), v), ("np.asarray()", lambda: np.asarray(r), v)):
+        o = attempt(f)
+        bad = violated("%s: %s raised %r" % (desc, how, o), tags) if not o.ok else same(o.value, want, how)
+        if bad:
+            return bad
+    m = attempt(lambda: (int(len(r)), int(r.size), tuple(int(x) for x in r.shape), r.dtype == v.dtype))
+    if not m.ok or m.value != (L, L, (L,), True):
+        return violated("%s reports len/size/shape/dtype-equal = %s" % (desc, repr(m) if not m.ok else m.value), tags)
+    c = canonical(r, joined=False)
+    if c:
+        return violated("%s is not canonical: %s" % (desc, c), tags + ["not-canonical"])
+    probes = []
+    if what == "encode":
+        for s_ in case["slices"]:
+            probes.append(("rla[%s]" % short(s_), (lambda s__: (lambda: r[s__]))(s_), v[s_]))
+        probes.append(("np.concatenate([rla, rla[::-1], rla])", lambda: np.concatenate([r, r[::-1], r]), np.concatenate([v, v[::-1], v])))
+    else:
+        li = case["positions"]
+        mk = np.array(case["mask"], dtype=bool)
+        probes += [("rla[%d]" % li[0], lambda: r[li[0]], v[li[0]]), ("rla[list %s]" % short(li, 60), lambda: r[list(li)], v[list(li)]),
+                   ("rla[array]", lambda: r[np.array(li, dtype=np.int32)], v[np.array(li)]), ("rla[mask]", lambda: r[mk.copy()], v[mk]),
+                   ("rla[run-length mask]", lambda: r[RLA.from_array(mk.copy())], v[mk])]
+        for s_ in case["slices"]:
+            probes.append(("rla[%s]" % short(s_), (lambda s__: (lambda: r[s__]))(s_), v[s_]))
+    for how, f, want in probes:
+        o = attempt(f)
+        if not o.ok:
+            return violated("%s: %s raised %s: %s" % (desc, how, type(o.exc).__name__, o.exc), tags)
+        if np.ndim(want) == 0:
+            if not (type(o.value) is type(want) or np.asarray(o.value).dtype == np.asarray(want).dtype) or not labels_same(np.asarray(o.value).reshape(1) if np.ndim(o.value) == 0 else o.value, np.asarray(want).reshape(1)):
+                return violated("%s: %s gives %r, the dense array gives %r" % (desc, how, o.value, want), tags)
+            continue
+        bad = same(o.value, want, how)
+        if bad:
+            return bad
+        if isinstance(o.value, RLA):
+            c = canonical(o.value, joined=False)
+            if c:
+                return violated("%s: %s is not canonical: %s" % (desc, how, c), tags + ["not-canonical"])
+    if not labels_same(r.to_array(), v):
+        return violated("%s: the encoded array changed" % desc, tags)
+    return held(tags, L >= 2)
+
+
+def gen_labels(rng, maxlen=14):
+    kind = rng.choice(sorted(LABEL_POOLS))
+    idx = []
+    while len(idx) < rng.randint(1, maxlen):
+        idx += [rng.randrange(6)] * rng.randint(1, 4)
+    L = len(idx)
+    return {"kind": "labels", "lkind": kind, "idx": idx, "slices": [gen.gen_slice(rng, L) for _ in range(4)] + [slice(None, None, -1), slice(None, None, 2)],
+            "positions": [rng.randint(-L, L - 1) for _ in range(rng.randint(1, 6))], "mask": [rng.random() < 0.5 for _ in range(L)]}
+
